@@ -137,7 +137,10 @@ func floatBitsIssues(s *sided) []sideIssue {
 		// fact, checked against the Go toolchain in this sandbox): the normalised operand is a function of the == class
 		if len(c.Args) == 1 {
 			if be, ok := unparen(c.Args[0]).(*ast.BinaryExpr); ok && be.Op == token.ADD {
-				isZero := func(e ast.Expr) bool { bl, ok := unparen(e).(*ast.BasicLit); return ok && (bl.Value == "0" || bl.Value == "0.0") }
+				isZero := func(e ast.Expr) bool {
+					bl, ok := unparen(e).(*ast.BasicLit)
+					return ok && (bl.Value == "0" || bl.Value == "0.0")
+				}
 				if isZero(be.Y) || isZero(be.X) {
 					return true
 				}
